@@ -1348,10 +1348,57 @@ func cacheUnlockWindowRules(c *Ctx, ci *cacheInfo, prop string) {
 				}
 			}
 		}
-		if len(relocks) == 0 {
+		// a call of a cache function that takes the lock itself, made after this
+		// function released it, is a re-lock point as well: what it is handed was
+		// read in the earlier critical section
+		var lockingCalls []ssa.Instruction
+		core.EachInstr(fn, func(in ssa.Instruction) {
+			call, ok := in.(*ssa.Call)
+			if !ok {
+				return
+			}
+			g := call.Call.StaticCallee()
+			if g == nil || !core.InModule(g) || len(g.Blocks) == 0 || g == fn {
+				return
+			}
+			takes := false
+			for _, op := range core.Locksets(g).Ops {
+				if op.Op == "Lock" || op.Op == "RLock" {
+					takes = true
+				}
+			}
+			if !takes {
+				return
+			}
+			for _, op2 := range li.Ops {
+				if (op2.Op == "Unlock" || op2.Op == "RUnlock") && !op2.Defer && core.MayFollow(op2.Instr, in) {
+					lockingCalls = append(lockingCalls, in)
+					break
+				}
+			}
+		})
+		if len(relocks) == 0 && len(lockingCalls) == 0 {
 			continue
 		}
 		n := 0
+		for _, a := range ci.guardedAccesses(fn) {
+			lv, isVal := a.in.(ssa.Value)
+			if a.write || !isVal {
+				continue
+			}
+			for _, k := range lockingCalls {
+				if !core.MayFollow(a.in, k) {
+					continue
+				}
+				for _, u := range dependents(lv) {
+					if u == k {
+						n++
+						c.check(false, prop+".no-stale-after-relock", fn, "value from "+a.what+" handed to a function that re-takes the lock", k,
+							"read at "+c.ipos(a.in)+" in a critical section that has ended; "+core.CalleeName(k.(*ssa.Call).Common())+" locks again and works on it: other calls may have replaced or removed the entry in between")
+					}
+				}
+			}
+		}
 		for _, a := range ci.guardedAccesses(fn) {
 			lv, isVal := a.in.(ssa.Value)
 			if a.write || !isVal {
